@@ -7,28 +7,47 @@
 \*   2. otherwise reads what arrived (traffic: last := t) and answers a complete request (traffic as well).
 EXTENDS Naturals, Sequences, TLC
 CONSTANTS T,          \* time-out in ticks (> 0)
-          MaxTyme
-VARIABLES tyme, state, last, h
-vars == <<tyme, state, last, h>>
-Init == tyme = 0 /\ state = "new" /\ last = 0 /\ h = <<>>
+          MaxTyme,
+          Pats        \* answers of the application to a non persistent request: sequences over {"p", "g"}, one element per
+                      \* service ("p": a piece of the body is written = traffic, "g": nothing yet), or <<"stall">>: nothing, for ever
+VARIABLES tyme, state, last, h, pat
+vars == <<tyme, state, last, h, pat>>
+Init == tyme = 0 /\ state = "new" /\ last = 0 /\ h = <<>> /\ pat = <<>>
 Log(ev) == h' = Append(h, [ev |-> ev, tyme |-> tyme, state |-> state'])
+\* a complete NON persistent request (HTTP/1.1 with Connection: close) arrives: the application answers according to
+\* pattern q; the first element is served in the same service call
+Answer(q) == IF q = <<"stall">> THEN pat' = q /\ state' = "answering" /\ last' = tyme                  \* request bytes were traffic
+             ELSE IF q = <<>> THEN pat' = <<>> /\ state' = "ended" /\ last' = tyme                     \* empty body: head + end
+             ELSE pat' = Tail(q) /\ state' = (IF Tail(q) = <<>> /\ FALSE THEN "ended" ELSE "answering") /\ last' = tyme
+Stream == \* one service of a connection whose non persistent request is being answered
+  IF tyme - last >= T THEN state' = "closed" /\ UNCHANGED <<last, pat>>
+  ELSE IF pat = <<"stall">> THEN UNCHANGED <<state, last, pat>>
+  ELSE IF pat = <<>> THEN state' = "ended" /\ last' = tyme /\ UNCHANGED pat                            \* the end of the body is written
+  ELSE /\ pat' = Tail(pat) /\ UNCHANGED state /\ last' = (IF Head(pat) = "p" THEN tyme ELSE last)
 \* one call of service() at the current tyme, `ev` is what the client did since the previous call
 Service(ev) ==
   /\ tyme < MaxTyme
   /\ IF state = "new" THEN                                      \* accepted now: the idle period starts
-        /\ state' = (IF ev = "request" THEN "persistent" ELSE "open") /\ last' = tyme
+        IF ev[1] = "reqclose" THEN Answer(ev[2])
+        ELSE state' = (IF ev[1] = "request" THEN "persistent" ELSE "open") /\ last' = tyme /\ UNCHANGED pat
      ELSE IF state = "open" THEN
-        IF tyme - last >= T THEN state' = "closed" /\ UNCHANGED last          \* idle for T: closed, whatever arrives now
-        ELSE IF ev = "none" THEN UNCHANGED <<state, last>>
-        ELSE state' = (IF ev = "request" THEN "persistent" ELSE "open") /\ last' = tyme
-     ELSE UNCHANGED <<state, last>>                            \* persistent: never timed out; closed: stays closed
+        IF tyme - last >= T THEN state' = "closed" /\ UNCHANGED <<last, pat>>    \* idle for T: closed, whatever arrives now
+        ELSE IF ev[1] = "none" THEN UNCHANGED <<state, last, pat>>
+        ELSE IF ev[1] = "reqclose" THEN Answer(ev[2])
+        ELSE state' = (IF ev[1] = "request" THEN "persistent" ELSE "open") /\ last' = tyme /\ UNCHANGED pat
+     ELSE IF state = "answering" THEN Stream
+     ELSE IF state = "ended" THEN state' = "closed" /\ UNCHANGED <<last, pat>>   \* answer complete, not persistent: closed
+     ELSE UNCHANGED <<state, last, pat>>                       \* persistent: never timed out; closed: stays closed
   /\ tyme' = tyme + 1 /\ Log(ev)
-Next == \E ev \in {"none", "bytes", "request"} : Service(ev)
+Evs == {<<"none">>, <<"bytes">>, <<"request">>} \cup {<<"reqclose", q>> : q \in Pats}
+\* once a request is being answered the client is silent (the property is about the server's side then)
+Next == \E ev \in Evs : (state \in {"answering", "ended", "persistent", "closed"} => ev = <<"none">>) /\ Service(ev)
 Spec == Init /\ [][Next]_vars
 -----------------------------------------------------------------------------
 \* C12
-ClosedOnlyIfIdle == [][(state = "open" /\ state' = "closed") => tyme - last >= T]_vars
-IdleGetsClosed == [][(state = "open" /\ tyme - last >= T) => state' = "closed"]_vars
-TrafficKeepsOpen == [][(state = "open" /\ tyme - last < T) => state' # "closed"]_vars
+NotPersistent == state \in {"open", "answering"}
+ClosedOnlyIfIdle == [][(NotPersistent /\ state' = "closed") => tyme - last >= T]_vars
+IdleGetsClosed == [][(NotPersistent /\ tyme - last >= T) => state' = "closed"]_vars
+TrafficKeepsOpen == [][(NotPersistent /\ tyme - last < T) => state' # "closed"]_vars
 PersistentStays == [][state = "persistent" => state' = "persistent"]_vars
 ====
